@@ -44,6 +44,7 @@ type gen struct {
 	ctr    int
 	ids    int
 	varexp bool // the configs are created with VarExp: settings may be references
+	custom bool // Unpack runs with StructTag("cfg") and ValidatorTag("check")
 }
 
 // refable: kinds whose setting may be spelled as a reference to another setting.
@@ -63,6 +64,9 @@ var fieldNames = []string{"a", "b", "c", "d", "e", "f"}
 func (g *gen) genStruct(depth int) *Struct {
 	t := g.r.T
 	s := &Struct{}
+	if g.custom {
+		s.TagCfg, s.TagVal = "cfg", "check"
+	}
 	n := 1 + t.Choose(4, "n-fields")
 	inlineUsed := false
 	for i := 0; i < n; i++ {
@@ -75,6 +79,9 @@ func (g *gen) genStruct(depth int) *Struct {
 		}
 		if k == KInline && inlineUsed {
 			k = KStr
+		}
+		if g.custom && (k == KInner || k == KPInner || k == KDInt) {
+			k = KInt // the hand-written types carry the standard tag names
 		}
 		f.Kind = k
 		switch k {
